@@ -12,35 +12,35 @@ CHECKS = {
  },
  'C07': {
   'text': 'Bounded symbolic model checking of the real co_tmr.c in lock step with a reference timer model: every sequence of operation kinds over '
-          '{create, delete, tick, process} of length 4 (thorough 5) is enumerated by the driver, all arguments (start/cycle 0..7 ticks, deleted id) are symbolic; '
-          'pool sizes 1..3 (thorough ..4). Oracle after every step: callback counts, create/delete return values, id uniqueness, pool conservation. '
+          '{create, delete, tick, process} of length 4 (thorough 5) is enumerated by the driver (plus deferred processing of three events, length 7), all arguments (start/cycle 0..7 ticks, deleted id) are symbolic; '
+          'pool sizes 1..3 (thorough ..4). Oracle after every step: callback counts, create/delete return values, id uniqueness, pool conservation, and the delta list + hardware counter encode exactly the model ticks-until-due of every live action. '
           'Tick conversion: all frequencies 0..10000 Hz and frequency = q*unit (q<=15, thorough 63), 16-bit symbolic times. Longer histories, larger pools and 32-bit frequencies are outside the bound.',
   'note': 'reference model re-arms a cyclic action when it is processed (as the code does); order of callbacks due on one tick unconstrained; timer driver = sw-cycle down-counter; pool blocks relinked onto separate objects by the CO_VERIF_TMR_POOL_HOOK hook; known finding F05 excluded by assumption and re-detected separately',
  },
  'C08': {
   'text': 'Same harness with interrupt preemption as solver-chosen flags: the tick service may run before every COTmrLock and after every COTmrUnlock of create/delete and between calls, '
           'processing deferred arbitrarily (exact lock-step model, pool 2, 4 operations, thorough 5 / pool 3); plus a variant where the service also preempts inside COTmrProcess '
-          '(at most once per process call; oracle: memory safety, pool conservation, never after confirmed deletion, one-shot at most once, nothing lost after a final flush; pool 1, 3 operations).',
+          '(at most once per process call; oracle: memory safety, pool conservation, never after confirmed deletion, one-shot at most once, nothing lost after a final flush; pool 1, 3 operations; pool 2 with one-shot actions and preemption only inside process); pool 3 with preempting ticks for two / three unprocessed elapsed events.',
   'note': 'preemption only at lock/unlock boundaries (statement-level preemption outside critical sections reduces to these because that code touches task-private data apart from the loop-head read of Elapsed); RTOS-task concurrency outside the claim',
  },
  'C01': {
   'text': 'Inductive safety step of the SDO server on the real sources: server state, transfer buffer, object contents and one whole frame (command byte, dlc, payload) symbolic under a written-down representation invariant; '
           'all cbmc memory-safety / arithmetic / unwinding checks on, invariant re-established, bounded number of responses, no fatal error. One discharged step covers frame histories of any length. '
-          'Block size scaled to N in {2,4} (thorough 2,3,4,6), one or two servers, 12 object kinds. Plus a safety sweep: the arbitrary-state step harnesses of LSS (every command specifier), NMT gating (every input class), RPDO/SYNC, PDO configuration, heartbeat consumer, EMCY, SDO client, SYNC configuration and the preemptive timer are re-run with only the built-in checks of cbmc, unwinding assertions and the fatal-error counter deciding.',
+          'Block size scaled to N in {2,4} (thorough 2,3,4,6), one or two servers, 12 object kinds. Plus a safety sweep: the arbitrary-state step harnesses of LSS (every command specifier), NMT gating (every input class), RPDO/SYNC, PDO configuration, heartbeat consumer, EMCY, SDO client, SYNC configuration and the preemptive timer are re-run with only the built-in checks of cbmc, unwinding assertions and the fatal-error counter deciding; and a configuration sweep (cfg_sweep): 10 (thorough: all 256) subsets of the optional dictionary groups x build configurations (two SDO servers, LSS off, SDO client off, 100 Hz / 1 MHz timer) x four input sequences (LSS + configuration writes, received traffic in OPERATIONAL, triggers/EMCY/client, ticks + NMT stop/start + both resets) with symbolic data and symbolic CAN send / NVM faults.',
   'note': 'safety sweep instances ignore the functional oracles of their harness (those belong to C09..C19); invariant sdo_inv.h (too weak => counterexample replayed natively; too strong => vacuity witnesses fail); block transfers at the production block size 127 outside the bound; dictionary structure = the template family; service steps other than SDO are covered by the per-property harnesses',
  },
  'C02': {
   'text': 'Reference SDO client in the harness drives the real server through CONodeProcess: expedited download + read back of 8/16/32-bit and node-id-relative objects, segmented download of every size 1..21 (thorough ..35) to a domain, '
-          'block download at N in {2,3} (thorough ..4) with every position of one lost segment per block; payload, size indication, domain size and prior contents symbolic; every response byte and the final storage checked. Two-server non-interference as an inductive step.',
+          'block download at N in {2,3} (thorough ..4) with every position of one lost segment per block; payload, size indication, domain size and prior contents symbolic; every response byte and the final storage checked. Two-server non-interference as an inductive step. sdo_seg_step: induction over the segments of a download on a 600 (thorough 4000) byte domain - from an arbitrary mid-transfer state one conforming segment lands exactly at the offset reached so far (storage checked at a symbolic byte position).',
   'note': 'size per instance concrete (keeps every command byte concrete for cbmc), data symbolic; loss of the final segment of a block (recoverable only by client time-out) excluded; payload longer than an unannounced object excluded',
  },
  'C03': {
-  'text': 'Reference client reassembles segmented and block uploads of domain and string objects of every size 1..21 (thorough ..35): block sizes 1, 2, 3, 127 (clamped), every partial-acknowledge pattern of up to two partial acks per transfer, block size change at complete acknowledges and inside partial acknowledges; contents symbolic; assembled bytes, announced size, sequence numbers, c-bit, n-field, unchanged object checked.',
+  'text': 'Reference client reassembles segmented and block uploads of domain and string objects of every size 1..21 (thorough ..35), from a fresh node and from an arbitrary idle state; inductive upload-segment step on a 600 (4000) byte domain: block sizes 1, 2, 3, 127 (clamped), every partial-acknowledge pattern of up to two partial acks per transfer, block size change at complete acknowledges and inside partial acknowledges; contents symbolic; assembled bytes, announced size, sequence numbers, c-bit, n-field, unchanged object checked.',
   'note': 'acknowledge patterns and sizes enumerated concretely by the driver, data symbolic; whether a block size announced inside a PARTIAL acknowledge applies to the repeated block is unconstrained (the server keeps the old size), the data must be exact either way',
  },
  'C04': {
   'text': 'sdo_lookup: COSdoCheck+COSdoGetObject with a fully symbolic 24-bit multiplexer and symbolic R/W flags on all application entries against a linear reference lookup (existence, access right, abort codes 0602 0000h / 0609 0011h / 0601 0001h / 0601 0002h). '
-          'sdo_step phases idle / segmented-open: all 256 command bytes with symbolic payload from an arbitrary server state, verdict table (response count, multiplexer echo, 0607 0012h/0013h, 0503 0000h, 0504 0001h, refused => storage unchanged).',
+          'sdo_step phases idle / segmented-open: all 256 command bytes with symbolic payload from an arbitrary server state, verdict table (response count, multiplexer echo, 0607 0012h/0013h, 0503 0000h, 0504 0001h, refused => storage unchanged, expedited transfers leave nothing open, a segmented transfer starts at toggle 0, a client abort ends any transfer - also inside block transfers, N=2). Dictionary of sdo_lookup includes objects at A100h and FFFFh.',
   'note': 'type-specific abort codes (0609 0030h, 0604 004xh) are checked with the owning objects in C11/C14/C15/C16; dictionaries beyond the template family outside',
  },
  'C05': {
@@ -48,11 +48,11 @@ CHECKS = {
   'note': 'same reference client as C02/C03; N=2, domain 14 byte',
  },
  'C09': {
-  'text': 'One input of each class (NMT command with symbolic cs/target/dlc, SDO request, RPDO, SYNC, monitored heartbeat, LSS frame, 22 foreign identifiers next to every claimed one, API mode change, EMCY set, TPDO trigger, heartbeat producer due) in each NMT mode against the CiA 301 transition and gating table; the model state is the mode, so one step is an induction over command sequences.',
+  'text': 'One input of each class, on the full dictionary and on one without the SYNC objects, (NMT command with symbolic cs/target/dlc, SDO request, RPDO, SYNC, monitored heartbeat, LSS frame, 22 foreign identifiers next to every claimed one, API mode change, EMCY set, TPDO trigger, heartbeat producer due) in each NMT mode against the CiA 301 transition and gating table; the model state is the mode, so one step is an induction over command sequences. Plus TPDO / RPDO sequences in which NMT commands that do not change the mode (repeated start) must not disturb PDO communication.',
   'note': 'a fully symbolic identifier does not terminate in cbmc (every decoder becomes symbolic at once), identifiers are enumerated; NMT frames with dlc < 2 unconstrained',
  },
  'C15': {
-  'text': 'One EMCY operation (set with/without manufacturer fields, clear, reset silent/loud, SDO write 1003:0, SDO read 1003:n, get/count) from an arbitrary consistent emergency state: table (class 0..7, code), active set, history ring contents/fill/position, 1014h incl. valid bit all symbolic; 4 errors (thorough 6), depth 1..3 (4), modes PRE-OP/OPERATIONAL/STOP. Register, counters, frames and newest-first history against a reference model.',
+  'text': 'One EMCY operation (set with/without manufacturer fields, clear, reset silent/loud, SDO write 1003:0, SDO read 1003:n, get/count) from an arbitrary consistent emergency state: table (class 0..7, code), active set, history ring contents/fill/position, 1014h incl. valid bit all symbolic; 4 errors (thorough 6; and 12 (20) errors over several status bytes with a concrete table), depth 1..3 (4), modes PRE-OP/OPERATIONAL/STOP. Register, counters, frames and newest-first history against a reference model.',
   'note': 'ring fill/position enumerated for the set operation; 29-bit identifiers in 1014h outside',
  },
  'C18': {
@@ -61,21 +61,21 @@ CHECKS = {
  },
  'C10': {
   'text': 'hbp_bmc: whole node (heartbeat producer, one event-driven TPDO with event/inhibit timers, SYNC producer, application timer) on the real timer (pool 4, 1 kHz); operation-kind sequences of length 5..7 over {tick, SDO/API write 1017h, NMT start/stop/pre-op/reset-communication, SDO write 1800h:5 / 1800h:3 / 1005h / 1006h, TPDO trigger, application timer create/delete} are enumerated by the driver (34 quick, +625 thorough), '
-          'written times taken from 3 (thorough 6) value vectors over 0..3 ms, initial 1017h 2 ms (thorough 0/1/2). After every step the frames on 700h+id are compared with a reference schedule that only knows 1017h: count per tick, dlc 1, state code 127/5/4, restart on write, stop on zero, boot-up + restart on reset communication.',
-  'note': 'written times are concrete per instance (symbolic times make every timer-list shape symbolic; cbmc does not finish), operation kinds concrete; periods > 3 ticks, timer frequencies other than 1 kHz and sequences longer than 7 are outside the bound',
+          'written times taken from 3 (thorough 6) value vectors over 0..3 ms, initial 1017h 2 ms or 0 (thorough 0/1/2); the period is also read in timer ticks from the timer lists after every write (heartbeat times up to 60 s at 10 kHz..1 MHz). After every step the frames on 700h+id are compared with a reference schedule that only knows 1017h: count per tick, dlc 1, state code 127/5/4, restart on write, stop on zero, boot-up + restart on reset communication.',
+  'note': 'written times are concrete per instance (symbolic times make every timer-list shape symbolic; cbmc does not finish), operation kinds concrete; emission schedules only for periods <= 3 ticks at 1 kHz and sequences up to 8 operations',
  },
  'C11': {
-  'text': 'hbc_step: ONE consumer operation from an ARBITRARY consumer table: 2 (thorough 3) entries, every active-chain shape and order, every mask of running monitors enumerated; node ids, times 1..5 ms, event counters, last states symbolic. Operations: SDO write of a symbolic (node, time) to each entry, heartbeat frame from a symbolic node with symbolic state byte, monitor time elapsing (1..6 ticks), CONmtGetHbEvents, CONmtLastHbState. '
+  'text': 'hbc_step: ONE consumer operation from an ARBITRARY consumer table: 2 (thorough 3) entries, every active-chain shape and order, every mask of running monitors enumerated; node ids, times 1..5 ms, event counters, last states symbolic. Operations: SDO write of a symbolic (node, time) to each entry, heartbeat frame from a symbolic node with symbolic state byte, monitor time elapsing (1..6 ticks), CONmtGetHbEvents, CONmtLastHbState; entries monitoring node ids 11/12, 1/2 and 126/127. '
           'Oracle: reference monitor (refusal 0604 0043h exactly for a non-zero time on a node monitored by another active entry and nothing changed; time 0 deactivates exactly the written entry; other entries untouched; event exactly when the time elapses and again after each period; counter saturates at 255 and clears on read; change callback iff state differs) plus chain invariant (acyclic, each entry once, chain = active entries). One step from an arbitrary consistent table = induction over histories.',
   'note': 'consumer times 1..5 ticks at 1 kHz; 4 entries outside the bound; re-pointing an ACTIVE entry to another node with non-zero time is only required to keep the chain invariant (DESIGN appendix B)',
  },
  'C12': {
-  'text': 'tpdo_bmc: one TPDO on a whole node with the real timer; 7 mappings (1..4 objects of 1/2/3/4 bytes incl. 3-byte fields and a full 8-byte frame) with symbolic object values; 42 operation sequences (thorough + all 1024 sequences over {trigger, tick, object write, event-time write} of length 5) over {trigger, changed / unchanged write of an asynchronous mapped object, tick, SYNC, NMT start/stop/pre-op, SDO write event time / inhibit time, COB-ID invalidate / validate, transmission type rewritten between synchronous and event-driven while invalid}; '
+  'text': 'tpdo2: two TPDOs sharing a mapped object (every change triggers each of them exactly once). tpdo_bmc: one TPDO on a whole node with the real timer; 7 mappings (1..4 objects of 1/2/3/4 bytes incl. 3-byte fields and a full 8-byte frame) with symbolic object values; 42 operation sequences (thorough + all 1024 sequences over {trigger, tick, object write, event-time write} of length 5) over {trigger, changed / unchanged write of an asynchronous mapped object, tick, SYNC, NMT start/stop/pre-op, SDO write event time / inhibit time, COB-ID invalidate / validate, transmission type rewritten between synchronous and event-driven while invalid, remapping to another / an empty mapping while invalid, repeated NMT start}; '
           'inhibit 0..3 ms, event 0..3 ms, types 1,2,3,240,254,255. Every emission (tick, identifier, dlc, little-endian data) is compared with a reference model of the trigger / inhibit / event / n-th-SYNC rules (inhibit first on ties); nothing is sent outside OPERATIONAL or with an invalid COB-ID.',
   'note': 'times and operation kinds concrete per instance, data symbolic; first event-timer arming after entering OPERATIONAL follows the code (stagger by channel number, DESIGN appendix B); one TPDO channel; objects wider than 4 bytes outside',
  },
  'C13': {
-  'text': 'rpdo_step: 10 mappings (8/16/24/32-bit fields, dummies 0002h..0007h of each width, asynchronous-flagged objects) x channel tables (which of 2 channels are valid / synchronous, incl. a synchronous channel above an asynchronous or invalid one) x NMT mode; payload, dlc and all object contents symbolic. Sequences over {RPDO frame, SYNC, local write, neighbouring identifier, NMT pre-operational / stop / start} of length <= 5 (thorough: all 39 over R/S/L up to 3). '
+  'text': 'rpdo_step (one or both channels receiving): 10 mappings (8/16/24/32-bit fields, dummies 0002h..0007h of each width, asynchronous-flagged objects) x channel tables (which of 2 channels are valid / synchronous, incl. a synchronous channel above an asynchronous or invalid one) x NMT mode; payload, dlc and all object contents symbolic. Sequences over {RPDO frame, SYNC, local write, neighbouring identifier, NMT pre-operational / stop / start} of length <= 5 (thorough: all 39 over R/S/L up to 3). '
           'Oracle: model of the mapped objects (little-endian consecutive fields, dummies skip) + frame rule over every application variable and its guard words; synchronous RPDO applied exactly once at the next SYNC, SYNC without reception changes nothing, no effect outside OPERATIONAL or for another identifier.',
   'note': 'a reception still waiting for its SYNC when OPERATIONAL is left is discarded (PDO communication starts afresh with each OPERATIONAL phase); frames shorter than the mapped length unconstrained (DESIGN appendix B); mappings enumerated, at most 4 mapping slots per channel in the template',
  },
@@ -85,23 +85,23 @@ CHECKS = {
   'note': 'activation of a SYMBOLIC mapping is outside (makes every mapped object pointer symbolic); one channel per direction',
  },
  'C16': {
-  'text': 'sync_step: (a) one SDO write to 1005h / 1006h with stored 1005h (11-bit id, bit 30), stored 1006h, written value and a stale node error all symbolic at 100 Hz / 1 kHz / 1 MHz: verdict (0609 0030h on id change while producing, refusal of an unresolvable period with the previous value kept), stored value, producer started / stopped / re-timed; (b) COSyncUpdate identifier match with symbolic cached 1005h and symbolic 29-bit frame identifier; '
+  'text': 'sync_step: (a) one SDO write to 1005h / 1006h with stored 1005h (11-bit id, bit 30), stored 1006h, written value and a stale node error all symbolic at 100 Hz / 1 kHz / 1 MHz: verdict (0609 0030h on id change while producing, refusal of an unresolvable period with the previous value kept), stored value, producer started / stopped / re-timed; (b) COSyncUpdate identifier match with symbolic cached 1005h and symbolic 32-bit frame identifier; '
           '(c) one SYNC through CONodeProcess in each mode with one / two synchronous TPDOs, types 1..240 and SYNC counters symbolic (inductive step: a type-n TPDO is sent on exactly every n-th SYNC, each counter advances once); (d) producer timing: 12 (thorough 17) operation sequences x 3 value vectors on the real timer comparing (tick, frame) SYNC emissions with the model, incl. NMT stop/start and reset communication.',
   'note': 'period <= 6553500 us (16-bit tick conversion, DESIGN §6 item 18b), producer periods 1..3 ms in the timing sequences',
  },
  'C17': {
-  'text': 'para_bmc: 1..3 parameter groups with symbolic size 1..8, symbolic enable flag and reset types from 4 layouts; RAM images, initial NVM image, signatures (so right and wrong ones) symbolic; sequences over {application change, store request, restore request} ending in restart (CONodeInit on a zeroed node, NVM kept), NMT reset communication or reset node; the position and size of one short NVM driver count symbolic. '
-          'Oracle: NVM image = bytes of exactly the addressed enabled groups (all for sub-index 1), wrong signature touches neither RAM nor NVM, COParaDefault for exactly the addressed groups, after restart / reset RAM of the groups of that reset type = last successfully stored image, every short count surfaces as SDO abort or node error.',
+  'text': 'para_bmc: 1..3 parameter groups with symbolic size 1..8, symbolic enable flags (on command / autonomous) and reset types from 4 layouts; RAM images, initial NVM image, signatures (so right and wrong ones) symbolic; sequences over {application change, store request, restore request} ending in restart (CONodeInit on a zeroed node, NVM kept), NMT reset communication or reset node; the position and size of one short NVM driver count symbolic. '
+          'Oracle: NVM image = bytes of exactly the addressed enabled groups (all for sub-index 1), wrong signature touches neither RAM nor NVM, COParaDefault for exactly the addressed groups, after restart / reset RAM of the groups of that reset type = last successfully stored image, every short count surfaces as SDO abort or node error and does not keep the other groups of that reload from being read.',
   'note': 'group sizes <= 8, <= 3 groups, <= 3 requests per sequence; a restart inside one driver call (torn write) is outside: the driver interface is one call per group',
  },
  'C19': {
-  'text': 'csdo_e2e: the real SDO client against a reference server in the harness: upload and download of 1,3,4,5,7,8,14,15 bytes (thorough up to 28) with symbolic payload; server conforming / aborting with a symbolic code at step j / silent from step j / unknown command / wrong toggle / oversized or foreign answer; each followed by a second transfer with a longer time-out after an idle gap; a variant in which the completion callback itself starts a timer that must survive the end of the transfer. '
+  'text': 'csdo_e2e: the real SDO client against a reference server in the harness: upload and download of 1,3,4,5,7,8,14,15 bytes (thorough up to 28) with symbolic payload; server conforming / aborting with a symbolic code at step j / silent from step j / unknown command / wrong toggle / oversized or foreign answer / final segment claiming more data than remains; each followed by a second transfer with a longer time-out after an idle gap; variants in which the completion callback itself starts a timer (must survive the end of the transfer) or requests the next transfer (refused as busy or fully served). '
           'Oracle: callback exactly once with the right code, user buffer with red zones exact, bus frames exact (announced size, toggles, last-segment flag, n field), abort frame 0504 0000h on time-out, busy client refuses, timer pool occupancy restored. csdo_step: arbitrary BUSY download context with 32-bit symbolic Size (5..600) and Buf_Idx: next segment width min(7, Size-Buf_Idx), c-bit iff last, bytes from the right offset.',
   'note': 'e2e sizes enumerated, <= 4 segments; sizes up to 600 through the inductive segment step; one client; block transfer is not implemented by the client',
  },
  'C20': {
   'text': 'reset_equiv: on one real node (heartbeat producer, two heartbeat consumers, SYNC consumer/producer, EMCY, one TPDO with event/inhibit timers, SDO server, SDO client, LSS, application timer; real timer, pool 6) run a history H, then NMT reset communication, then probes P; then zero the node, put the post-H dictionary values back, CONodeInit + CONodeStart, and run the same probes. '
-          '27 histories (inhibit time running at the reset, write 1017h, SYNC producer on, SYNC id change, TPDO event/inhibit timers armed, consumer configured/armed, open segmented download, open block upload, busy SDO client, LSS configuration state, EMCY set, application timer, NMT start/stop, a combined one) x 10 probe sequences (ticks, SDO uploads and stray segments, SYNC and old-id frames, NMT start + TPDO trigger, heartbeat + event count, LSS inquiry, client request + server answer, EMCY state) with symbolic heartbeat state, payloads and mapped value. '
+          '36 histories (inhibit time running at the reset, stack timers in front of / behind an application timer with different times, LSS activate-bit-timing pending with a reset through the API, write 1017h, SYNC producer on, SYNC id change, TPDO event/inhibit timers armed, consumer configured/armed, open segmented download, open block upload, busy SDO client, LSS configuration state, EMCY set, application timer, NMT start/stop, a combined one) x 10 probe sequences (ticks, SDO uploads and stray segments, SYNC and old-id frames, NMT start + TPDO trigger, heartbeat + event count, LSS inquiry, client request + server answer, EMCY state) with symbolic heartbeat state, payloads and mapped value. '
           'Oracle: per probe step the multiset of frames (identifier, dlc, data), all callback counts, API results and NMT mode are equal in both runs; exactly one boot-up; RAM communication parameters unchanged by the reset; application timer keeps its schedule; timer pool occupancy = fresh + live application timers.',
   'note': 'only observable behaviour is compared, never internal state; frames of one step as a multiset (order of actions due on one tick is free); the error history 1003h is dictionary content and not compared; times concrete (2 ms), kinds concrete; reset node variant and API resets in the thorough tier',
  },
